@@ -1143,7 +1143,11 @@ class ParseUniq:
             else:
                 base = vlist.get("index", "")
                 base = nshandler.get_fqname(base, page_ns)
-                pages = [f"{base}/{i}" for i in range(start_index, end_index + 1)]
+                if end_index - start_index >= MAX_TRANSCLUDED_PAGES:
+                    # the range is two numbers written in the wikitext: bound the work they can buy
+                    pages = []
+                else:
+                    pages = [f"{base}/{i}" for i in range(start_index, end_index + 1)]
 
             rawtext = "".join("{{%s}}\n" % x for x in pages)
             template_expander = expander.__class__(
@@ -1159,6 +1163,9 @@ class ParseUniq:
         return Token(
             type=Token.t_complex_tag, tagname=name, vlist=vlist, children=children
         )
+
+
+MAX_TRANSCLUDED_PAGES = 10000
 
 
 class XBunch:
